@@ -45,7 +45,7 @@ static TIMEOUTS: AtomicU64 = AtomicU64::new(0);
 /// Signatures of C15's own findings (see known_findings.json); the generator consults
 /// `Ctx::is_known` for each to decide what to avoid.
 const SIG_I0: &str = "C15/reread-differs/I0-only";
-const SIG_HEADER_COMMENT: &str = "C15/reread-differs/block-scalar-header-comment";
+const SIG_HEADER_COMMENT: &str = "C15/reread-differs/comment-after-block-scalar-content";
 const SIG_FOLDED_LEAD: &str = "C15/reread-differs/folded-leading-blank-lines";
 const SIG_FOLDED_KEEP: &str = "C15/reread-differs/folded-keep-trailing-line-break-added";
 
@@ -202,37 +202,17 @@ fn leading_breaks_multiplied(want: &str, got: &str) -> bool {
     kw >= 1 && kg > kw && w == g
 }
 
-/// Some line of the YAML text is a block scalar header followed by a comment
-/// (`key: |+ # c`, `- > # c`). Textual approximation used only to attribute a failure.
-pub fn has_block_header_comment(yaml: &[u8]) -> bool {
+/// The YAML text has a block scalar header (`|`, `>` with chomping / indentation
+/// indicators, at the end of a line or before a comment) and, somewhere, a `#`. Textual
+/// approximation used only to attribute a failure whose symptom is already specific.
+pub fn has_block_scalar_and_comment(yaml: &[u8]) -> bool {
     let t = String::from_utf8_lossy(yaml);
-    for line in t.split(['\n', '\r']) {
-        let b = line.as_bytes();
-        for i in 0..b.len() {
-            if (b[i] == b'|' || b[i] == b'>') && (i == 0 || b[i - 1] == b' ' || b[i - 1] == b'\t') {
-                let mut k = i + 1;
-                while k < b.len() && (b[k] == b'+' || b[k] == b'-' || b[k].is_ascii_digit()) {
-                    k += 1;
-                }
-                let rest = &b[k..];
-                let trimmed: &[u8] = {
-                    let mut r = rest;
-                    while let Some((&c, x)) = r.split_first() {
-                        if c == b' ' || c == b'\t' {
-                            r = x;
-                        } else {
-                            break;
-                        }
-                    }
-                    r
-                };
-                if trimmed.len() < rest.len() && trimmed.first() == Some(&b'#') {
-                    return true;
-                }
-            }
-        }
-    }
-    false
+    let header = t.split(['\n', '\r']).any(|line| {
+        let l = line.split(" #").next().unwrap_or("").split("\t#").next().unwrap_or("").trim_end_matches([' ', '\t']);
+        let l = l.trim_end_matches(|c: char| c == '+' || c == '-' || c.is_ascii_digit());
+        (l.ends_with('>') || l.ends_with('|')) && (l.len() == 1 || l[..l.len() - 1].ends_with([' ', '\t']))
+    });
+    header && t.contains('#')
 }
 
 /// Some line ends in a folded block scalar header (`>`, `>-`, `>+`, optional comment).
@@ -599,8 +579,8 @@ pub fn check_case(case: &Case, st: &mut Stats) -> Result<Outcome, Fail> {
         }
     }
     let sym = f.sig.as_str();
-    if (sym == "C15/reread-differs/str:comment-text-became-content" || sym == "C15/reread-differs/str:one-trailing-line-break-lost") && has_block_header_comment(&case.yaml) {
-        return Err(rename(&f, SIG_HEADER_COMMENT, "input has a block scalar header with a comment"));
+    if (sym == "C15/reread-differs/str:comment-text-became-content" || sym == "C15/reread-differs/str:one-trailing-line-break-lost") && has_block_scalar_and_comment(&case.yaml) {
+        return Err(rename(&f, SIG_HEADER_COMMENT, "input has a block scalar and a comment"));
     }
     if sym == "C15/reread-differs/str:leading-line-breaks-multiplied" && has_folded_header(&case.yaml) {
         return Err(rename(&f, SIG_FOLDED_LEAD, "input has a folded block scalar"));
@@ -664,8 +644,10 @@ fn own_shapes(r: &gy::RenderedYaml) -> (bool, bool, bool) {
         if !matches!(sp.style, gy::YStyle::Literal | gy::YStyle::Folded) {
             continue;
         }
-        let line_end = r.text[sp.start..].iter().position(|&b| b == b'\n' || b == b'\r').map(|p| sp.start + p).unwrap_or(r.text.len());
-        if r.text[sp.start..line_end].contains(&b'#') {
+        // a comment on the header line, or on the line of any enclosing collection whose
+        // rendering ends with this scalar (`- &a # c` above a nested block scalar), is
+        // re-emitted after the scalar's last line: any comment next to a block scalar counts
+        if r.stats.has_comment() {
             header_comment = true;
         }
         if sp.style == gy::YStyle::Folded {
